@@ -43,6 +43,10 @@ Excluded because the two forms legitimately differ (not because they are hard):
     in the top-level body only, reads anywhere.
   * lists/dicts contain futures only (no nested coroutines): concurrent children would make
     the emit order depend on timing, which the statement excludes from comparison.
+  * a bare ``raise`` anywhere but lexically inside an except-handler (a finally block in
+    between resets that): while ``raise gen.Return(v)`` propagates, the Return is the current
+    exception and ``finally: raise`` re-raises it, whereas after ``return v`` there is none (or
+    the enclosing handler's).  validate() enforces it, so the shrinker cannot create one.
   * raising StopIteration (PEP 479), yielding non-awaitables (BadYieldError vs TypeError).
   * cancelled futures are a separately tagged sub-batch (CANCEL_RATE); the statement speaks
     of futures that "complete" and of "result or exception" without naming cancellation,
@@ -254,7 +258,11 @@ def gen(rng, tier, index):
 # validation (the shrinker mutilates lists and ints)
 
 
-def _ok_body(b, nf, nsub, top, depth=0):
+def _ok_body(b, nf, nsub, top, depth=0, inh=False):
+    """inh: lexically inside an except-handler with no finally block in between.  A bare
+    `raise` is accepted only there: anywhere else its meaning depends on which exception is
+    "current", and that legitimately differs between `raise gen.Return(v)` (the Return is
+    current while finally blocks run) and `return v` (nothing, or the enclosing handler's)."""
     if not isinstance(b, list) or depth > 8:
         return False
     for st in b:
@@ -281,20 +289,23 @@ def _ok_body(b, nf, nsub, top, depth=0):
             hs = st.get("hs")
             ok = (isinstance(hs, list) and (hs or st.get("fin") is not None)
                   and all(isinstance(h, dict) and h.get("e") in HANDLER_NAMES
-                          and _ok_body(h.get("body"), nf, nsub, top, depth + 1) for h in hs)
-                  and _ok_body(st.get("body"), nf, nsub, top, depth + 1)
-                  and (st.get("fin") is None or _ok_body(st["fin"], nf, nsub, top, depth + 1)))
+                          and _ok_body(h.get("body"), nf, nsub, top, depth + 1, True) for h in hs)
+                  and _ok_body(st.get("body"), nf, nsub, top, depth + 1, inh)
+                  and (st.get("fin") is None
+                       or _ok_body(st["fin"], nf, nsub, top, depth + 1, False)))
         elif t == "raise":
             ok = st.get("e") in EXC_NAMES and isinstance(st.get("a"), int)
         elif t in ("ret", "gret"):
             ok = isinstance(st.get("v"), int)
         elif t == "cvset":
             ok = top and isinstance(st.get("v"), int)
-        elif t in ("cvget", "reraise"):
+        elif t == "cvget":
             ok = True
+        elif t == "reraise":
+            ok = inh
         elif t == "loop":
             ok = (isinstance(st.get("n"), int) and 0 <= st["n"] <= 4
-                  and _ok_body(st.get("body"), nf, nsub, top, depth + 1))
+                  and _ok_body(st.get("body"), nf, nsub, top, depth + 1, inh))
         else:
             ok = False
         if not ok:
